@@ -2,11 +2,12 @@
 META = dict(
   level_text='Bounded model checking of the ownership bookkeeping the polytree is built from: SetOwner never creates an ownership cycle from an arbitrary acyclic owner forest (all forests over 4 records, any pts/null pattern), and PolyPath Level/IsHole implement the depth-parity rule. Tree/paths equality, containment and area over all geometry need the whole sweep and are not decided.',
   level_note='RecursiveCheckOwners / CheckSplitOwner / Path1InsidePath2 over symbolic geometry are outside the claim.',
-  functions=['SetOwner', 'PolyPath::Level', 'PolyPath::IsHole', 'PolyPath64::AddChild/Count/Parent'],
+  functions=['SetOwner', 'PolyPath::Level', 'PolyPath::IsHole', 'PolyPath64::AddChild/Count/Parent', 'Clipper64::Execute (tree and paths, concrete geometry)', 'Clipper64::BuildTree64', 'ClipperBase::RecursiveCheckOwners', 'Path1InsidePath2'],
   assumptions=['4 output records', 'concrete 3-level tree for Level/IsHole'],
   outside=['RecursiveCheckOwners, CheckSplitOwner, Path1InsidePath2, BuildTree64 over symbolic geometry'],
 )
 OBLIGATIONS = [
+  O('C04.e-tree-vs-paths', 'eng_whole.cpp', 'harness_tree_vs_paths', unwind=14, timeout=1200, object_bits=16, bound='square with a triangular hole (Difference); ReverseSolution and PreserveCollinear symbolic', desc='tree execution yields the same two rings as paths execution; hole is a child of the outer, IsHole and orientation alternate (negated by ReverseSolution)'),
   O('C04.c-setowner-acyclic', 'eng_units.cpp', 'harness_setowner', unwind=8, bound='all owner forests over 4 records x all pts/null patterns x all (a,b)', desc='after SetOwner(a,b): a.owner == b and the owner relation is still acyclic'),
   O('C04.d-polypath-level', 'eng_units.cpp', 'harness_polypath_level', unwind=6, bound='concrete 3-level tree', desc='Level counts ancestors; IsHole <=> even non-zero level'),
 ]
